@@ -2557,7 +2557,7 @@ def c03(rep, tier, seed, wd, replay):
                            json.dumps({"config": h["cfg"], "ops": h["ops"][:i + 1], "impl": il[:300], "model": ml_[:300]}), found))
 
 
-DKG_DIFF_OPS = ("cluster", "gen", "gens", "gensp", "holds", "cprepare", "hprepare", "hprepares", "hexecute", "hexecute2", "hcontribute", "hcontributev", "hcommit", "habort", "sleep", "ctxdl")
+DKG_DIFF_OPS = ("cluster", "gen", "gens", "gensp", "holds", "cprepare", "hprepare", "hprepares", "hexecute", "hexecute2", "hcontribute", "hcontributev", "hcommit", "habort", "sleep", "ctxdl", "peerscfg")
 
 
 def c18(rep, tier, seed, wd, replay):
@@ -3402,6 +3402,14 @@ def c16(rep, tier, seed, wd, replay):
                             rep.violation("share-sent-to-non-participant", "a contribution (carrying the share computed for a listed participant) was sent to an instance that is not a participant",
                                           {"scenario": r_["tag"], "lines": r_["lines"][:i + 1], "impl": r_["impl"][:i + 1]})
                             found = True
+            if f[0] == "peerscfg":
+                names_ = [bytes.fromhex(h_).decode(errors="replace").split(":")[0] for h_ in f[1].split(",")]
+                dup_ = len(set(names_)) != len(names_)
+                rep.dist("peer_table", ("duplicate-name:" if dup_ else "distinct:") + o)
+                if dup_ and o == "ok":
+                    rep.violation("ambiguous-peer-table-accepted", "a peer table in which one name stands under two ids was accepted: a caller authenticated under that name is two participants (and is handed both their shares)",
+                                  {"scenario": r_["tag"], "lines": r_["lines"][:i + 1], "impl": r_["impl"][:i + 1], "names": names_})
+                    found = True
             if f[0] == "shareowners":
                 rep.dist("shareowners", o.split()[0])
                 if o.startswith("MISMATCH"):
@@ -3568,7 +3576,7 @@ THEOREMS.update({
                                     "Dirk.C18_complete_whole_name", "Dirk.C18_anchor_only_widens"]),
     "C14": ("Dirk.Props.C14", ["Dirk.C14", "Dirk.C14_proposals", "Dirk.C14_with_imports", "Dirk.C14_threshold_from_generation"]),
     "C13": ("Dirk.Props.C13", ["Dirk.Dkg.C13_reject", "Dirk.Dkg.C13_no_account", "Dirk.Dkg.C13_legacy_counterexample", "Dirk.Dkg.C13_kernel_is_source"]),
-    "C16": ("Dirk.Props.C16", ["Dirk.Dkg.C16_refuse_non_peer", "Dirk.Dkg.C16_share_owner", "Dirk.Dkg.C16_projection", "Dirk.Dkg.C16_kernel_is_source"]),
+    "C16": ("Dirk.Props.C16", ["Dirk.Dkg.C16_accepted_peers_distinct", "Dirk.Dkg.C16_duplicate_peer_name_refused", "Dirk.Dkg.C16_refuse_non_peer", "Dirk.Dkg.C16_share_owner", "Dirk.Dkg.C16_projection", "Dirk.Dkg.C16_kernel_is_source"]),
     "C17": ("Dirk.Props.C17", ["Dirk.Dkg.C17_prepare_twice", "Dirk.Dkg.C17_requires_active", "Dirk.Dkg.C17_gone_after",
                                "Dirk.Dkg.C17_commit_complete", "Dirk.Dkg.C17_independent_names", "Dirk.Dkg.C17_lifecycle_all_histories",
                                "Dirk.Dkg.C17_kernel_is_source", "Dirk.Dkg.C17_legacy_counterexample"]),
